@@ -22,7 +22,11 @@ Edit == {"insert", "setitem", "delitem", "append", "extend", "iadd", "pop", "rem
          "insert_function_call", "insert_python_obj",
          \* edits whose argument is an iterable that RAISES part-way (the caller catches the exception and goes on using the
          \* object): whatever was consumed before is in the list, so the same coherence is owed
-         "extend_raises", "iadd_raises", "setslice_raises"}
+         "extend_raises", "iadd_raises", "setslice_raises",
+         \* a slice assignment whose right-hand side is a lazy iterable that READS derived views of the same pickle while it
+         \* is consumed (an in-place filter written as a generator): the reads happen between the start of the assignment and
+         \* the replacement of the list
+         "setslice_reentrant"}
 View == {"source", "ast", "imports", "calls", "flags", "severity", "findings", "unused", "nonstd", "unsafe"}
 UsesProps == {"imports", "calls", "flags", "severity", "findings", "nonstd", "unsafe"}
 
